@@ -6,18 +6,18 @@ import (
 	"context"
 	"encoding/base64"
 	"errors"
-	"sync"
 	"fmt"
 	"os"
 	"strconv"
 	"strings"
+	"sync"
 	"time"
 
 	"github.com/markusressel/fan2go/internal"
-	"github.com/prometheus/client_golang/prometheus"
 	"github.com/markusressel/fan2go/internal/configuration"
 	"github.com/markusressel/fan2go/internal/sensors"
 	"github.com/markusressel/fan2go/internal/verifhook"
+	"github.com/prometheus/client_golang/prometheus"
 )
 
 type sensorWorld struct {
@@ -223,6 +223,50 @@ func init() {
 				case rd == "empty":
 					w.dev.RawRead = verifhook.ReadEmpty
 				}
+			}
+			if a.bool("slow", false) && w.kind != "cmd" {
+				// the read of this poll hangs (a stalled bus / mount) for longer than any time-out the monitor may apply (3.1 s
+				// of virtual time pass while it is blocked) and then completes. Whatever the poll does about it, later polls
+				// must each apply THEIR OWN read.
+				gate, entered := make(chan struct{}), make(chan struct{})
+				w.dev.RawGate, w.dev.RawEntered = gate, entered
+				done := make(chan error, 1)
+				go func() {
+					defer func() {
+						if r := recover(); r != nil {
+							done <- fmt.Errorf("panic")
+						}
+					}()
+					done <- internal.VerifUpdateSensor(w.sensor)
+				}()
+				select {
+				case <-entered:
+				case <-time.After(2 * time.Second):
+				}
+				verifhook.Advance(3100 * time.Millisecond)
+				var err error
+				returned := false
+				select {
+				case err = <-done:
+					returned = true
+				case <-time.After(300 * time.Millisecond):
+				}
+				w.dev.RawGate = nil
+				close(gate)
+				if !returned {
+					select {
+					case err = <-done:
+					case <-time.After(5 * time.Second):
+						return "hang avg=" + fmtF(w.sensor.GetMovingAvg())
+					}
+				} else {
+					time.Sleep(30 * time.Millisecond) // the late read finishes
+				}
+				r := "ok"
+				if err != nil {
+					r = "err"
+				}
+				return r + " avg=" + fmtF(w.sensor.GetMovingAvg())
 			}
 			err := internal.VerifUpdateSensor(w.sensor)
 			r := "ok"
